@@ -169,6 +169,9 @@ func (c *FnCtx) execStmt(s ast.Stmt, st *State) (outs []Out) {
 		return []Out{{st, oNormal}}
 	case *ast.AssignStmt:
 		c.assign(env, x)
+		if ord, ok := c.assignOrd[x]; ok {
+			c.runGhosts(st, "after assign "+ord, x.End())
+		}
 		return []Out{{st, oNormal}}
 	case *ast.IncDecStmt:
 		op := token.ADD
@@ -972,10 +975,29 @@ func (c *FnCtx) runGhosts(st *State, site string, pos token.Pos) {
 			continue
 		}
 		var goal string
-		c.guarded(st, func() { goal = c.specEnvAt(st, pos).evalSpecBool(a.Clause) })
+		skipped := false
+		c.guarded(st, func() {
+			defer func() {
+				if r := recover(); r != nil {
+					if ue, ok := r.(unsupportedErr); ok && strings.Contains(ue.msg, "unknown name") {
+						skipped = true // the assert mentions a variable that does not exist on this path
+						return
+					}
+					panic(r)
+				}
+			}()
+			goal = c.specEnvAt(st, pos).evalSpecBool(a.Clause)
+		})
 		if st.dead {
 			return
 		}
+		if skipped {
+			continue
+		}
+		if c.assertSeen == nil {
+			c.assertSeen = map[string]bool{}
+		}
+		c.assertSeen[a.Label+"|"+a.Expr] = true
 		props := a.Props
 		if props == nil {
 			props = c.spec.Props
@@ -1041,7 +1063,19 @@ func (c *FnCtx) execGhost(st *State, g GhostStmt, pos token.Pos) {
 	parts := strings.Split(lhs, ".")
 	obj, ok := c.specNames[parts[0]]
 	if !ok {
-		panic(unsupportedErr{"ghost assignment to unknown root " + parts[0]})
+		// a local variable of the function
+		var best types.Object
+		for o := range st.vars {
+			if o.Name() == parts[0] && (best == nil || best.Pos() < o.Pos()) {
+				if v, isVar := o.(*types.Var); isVar && v.Pkg() != nil && v.Parent() != v.Pkg().Scope() {
+					best = o
+				}
+			}
+		}
+		if best == nil {
+			panic(unsupportedErr{"ghost assignment to unknown root " + parts[0]})
+		}
+		obj = best
 	}
 	var path []PathElem
 	for _, f := range parts[1:] {
@@ -1079,8 +1113,8 @@ func (c *FnCtx) useLemma(st *State, u UseSpec, pos token.Pos) {
 		i := 0
 		for _, f := range lem.Decl.Type.Params.List {
 			for range f.Names {
-				if tv, err := types.Eval(c.eng.Fset, c.fi.Pkg.Types, token.NoPos, exprString2(f.Type)); err == nil {
-					names[pnames[i]] = env.coerce(names[pnames[i]], c.eng.Sorts.SortOf(tv.Type))
+				if pt, err := c.eng.evalType(c.fi.Pkg, exprString2(f.Type)); err == nil {
+					names[pnames[i]] = env.coerce(names[pnames[i]], c.eng.Sorts.SortOf(pt))
 				}
 				i++
 			}
